@@ -130,6 +130,32 @@ theorem all_or_nothing (s : Sys) (g : s.Good) (pre post : List Ev)
 theorem nothing_without_commit (s : Sys) (g : s.Good) (es : List Ev) (hne : ∀ e ∈ es, e ≠ .commit .ok) :
     observe (s.run es).heap (s.run es).engine = observe s.heap s.engine := (visibility_run s g es hne).2
 
+/-! ### every state reachable from a freshly opened engine -/
+
+/-- a freshly opened engine: `NewCatalog()` holds the (empty) oplog collection only; no transaction has written -/
+def Sys.fresh : Sys := ⟨⟨[.set [], .coll 0 [], .cat [(0, 1)]]⟩, ⟨2, false⟩, 2, []⟩
+
+theorem fresh_good : Sys.fresh.Good := by
+  refine ⟨⟨?_, by decide⟩, by decide, fun p hp => by cases hp⟩
+  intro o x hx p hp
+  have : o < 3 := Heap.get_lt _ hx
+  revert x p
+  revert o
+  decide +kernel
+
+/-- **snapshot_immutable, unconditional form.**  In every history of a freshly opened engine every snapshot ever
+    taken still observes what it observed when it was taken (no hypothesis left to discharge). -/
+theorem reachable_snapshot_immutable (es : List Ev) :
+    ∀ p ∈ (Sys.fresh.run es).snaps, observe (Sys.fresh.run es).heap p.1 = p.2 :=
+  snapshot_immutable _ fresh_good es
+
+/-- **all_or_nothing, unconditional form** for histories of a freshly opened engine -/
+theorem reachable_all_or_nothing (pre post : List Ev)
+    (hd : (Sys.fresh.run pre).txn.dirty = true) (hne : ∀ e ∈ post, e ≠ .commit .ok) :
+    observe (Sys.fresh.run (pre ++ .commit .ok :: post)).heap (Sys.fresh.run (pre ++ .commit .ok :: post)).engine
+      = observe (Sys.fresh.run pre).heap (Sys.fresh.run pre).txn.catalog :=
+  all_or_nothing _ fresh_good pre post hd hne
+
 /-- the same store-then-publish discipline in the Engine model of C05 (Model/CommitStore.lean):
     `e.catalog` changes only in `commit .ok` of a dirty transaction, to that transaction's catalog -/
 theorem commit_atomic_store {C : Type} (e : CommitStore.Engine C) (op : CommitStore.Op C) :
@@ -188,5 +214,18 @@ example :
   intro e he
   simp only [List.mem_cons, List.mem_nil_iff, or_false] at he
   rcases he with rfl | rfl | rfl | rfl <;> simp
+
+
+/-- `reachable_all_or_nothing` is not vacuous: from a freshly opened engine, `Create` makes the transaction
+    dirty; the collection is invisible to others before the commit and visible after it, and a snapshot of the
+    engine taken before still shows the oplog only -/
+example :
+    let pre : List Ev := [.snapEngine, .begin, .call "Create" 1 [] {}]
+    (Sys.fresh.run pre).txn.dirty = true ∧
+    observe (Sys.fresh.run pre).heap (Sys.fresh.run pre).engine = some [(0, some ⟨some [], []⟩)] ∧
+    observe (Sys.fresh.run (pre ++ [.commit .ok, .abort])).heap (Sys.fresh.run (pre ++ [.commit .ok, .abort])).engine
+      = some [(1, some ⟨some [], [("_id_", some [])]⟩), (0, some ⟨some [], []⟩)] ∧
+    (Sys.fresh.run (pre ++ [.commit .ok, .abort])).snaps.map (·.2) = [some [(0, some ⟨some [], []⟩)]] := by
+  decide +kernel
 
 end Lungo.C03
